@@ -114,11 +114,11 @@ def vf_assert(ex, st, args, ins):
     holds = ex.eval_bool(st, c)
     if not holds:
         msg = ex_cstr(ex, st, args[1])
-        ex.violation(st, 'assert', msg, fatal=False)
-        r, m = ex.check(st, c)
-        if r != 'sat': raise _PathEnd('violation')
-        ex.add_constraint(st, c, m)
-        return
+        ex.violation(st, 'assert', msg)         # the current model is already a counterexample; the path ends here
+    vals = _random_falsify(ex, st, c)
+    if vals is not None:
+        msg = ex_cstr(ex, st, args[1])
+        ex.violation(st, 'assert', msg, model=vals)
     r, m = ex.check(st, z3.Not(c))
     if r == 'sat':
         msg = ex_cstr(ex, st, args[1])
@@ -126,6 +126,23 @@ def vf_assert(ex, st, args, ins):
     elif r == 'unknown':
         ex.note_unsupported('solver-unknown-on-assert')
     ex.add_constraint(st, c)
+
+def _random_falsify(ex, st, c, tries=3):
+    """cheap pre-check for very large assertions (hash-like terms): a few random input vectors that satisfy the path
+    condition; returns a z3 model-like object or None. The solver still decides when nothing is found."""
+    if not st.inputs or len(st.pc) > 8 or c.sexpr().__len__() < 20000: return None
+    import random
+    syms = [t for k, t in st.inputs if not isinstance(t, int)]
+    for _ in range(tries):
+        sub = [(t, z3.BitVecVal(random.getrandbits(t.size()), t.size())) for t in syms]
+        if all(z3.is_true(z3.simplify(z3.substitute(p, *sub))) for p in st.pc):
+            if z3.is_false(z3.simplify(z3.substitute(c, *sub))):
+                return _SubstModel(sub)
+    return None
+
+class _SubstModel:
+    def __init__(self, sub): self.sub = sub
+    def eval(self, t, completion=True): return z3.simplify(z3.substitute(t, *self.sub))
 
 @builtin('vf_fail')
 def vf_fail(ex, st, args, ins):
@@ -1183,3 +1200,18 @@ def vf_tid(ex, st, args, ins): return st.threads[st.cur].tid
 SYNC_POINTS = {'pthread_mutex_lock', 'pthread_mutex_unlock', 'pthread_mutex_trylock', 'pthread_cond_wait', 'pthread_cond_timedwait',
                'pthread_cond_signal', 'pthread_cond_broadcast', 'sem_wait', 'sem_post', 'sem_trywait', 'sem_timedwait',
                'pthread_join', 'pthread_create', 'vf_yield', 'vf_join', 'usleep', 'sched_yield', 'nanosleep'}
+
+_UF256 = None
+@builtin('vf_uf256')
+def vf_uf256(ex, st, args, ins):
+    """state[0..7] <- F(state, block[0..15]) with F an uninterpreted function BV256 x BV512 -> BV256"""
+    global _UF256
+    if _UF256 is None:
+        _UF256 = z3.Function('sha256_compress', z3.BitVecSort(256), z3.BitVecSort(512), z3.BitVecSort(256))
+    sp, bp = args[0], args[1]
+    sw = [to_bv(st.mem.load(sp + 4 * i, 4), 32) for i in range(8)]
+    bw = [to_bv(st.mem.load(bp + 4 * i, 4), 32) for i in range(16)]
+    r = _UF256(z3.simplify(z3.Concat(*sw)), z3.simplify(z3.Concat(*bw)))
+    for i in range(8):
+        st.mem.store(sp + 4 * i, 4, z3.Extract(255 - 32 * i, 224 - 32 * i, r))
+    return None
